@@ -1,4 +1,6 @@
 import HbsModel.Render
+import HbsModel.Escape
+import HbsModel.Generated.Builtins
 /-
   Model of registry.rs / sources.rs: the registry state machine, the file system as a parameter,
   template (re)loading in dev mode, and the render entry points (written separately, as in the Rust).
@@ -10,27 +12,36 @@ abbrev FS := List (Str × Str)          -- path ↦ content
 
 def assocInsert {α : Type} (l : List (Str × α)) (k : Str) (v : α) : List (Str × α) := hashInsert l k v
 
-/-- `setup_builtins` is regenerated from registry.rs (Generated/Builtins.lean); this is the fixed
-    interpretation of each built-in name. -/
-def builtinKind (n : String) : Option HelperKind :=
-  match n with
-  | "if" => some (.ifH true) | "unless" => some (.ifH false) | "each" => some .each | "with" => some .withH
-  | "lookup" => some .lookup | "raw" => some .raw | "log" => some .log
-  | "eq" => some .eq | "ne" => some .ne | "gt" => some .gt | "gte" => some .gte | "lt" => some .lt
-  | "lte" => some .lte | "and" => some .andH | "or" => some .orH | "not" => some .notH | "len" => some .len
-  | _ => none
+/-- interpretation of the implementation identifiers that `setup_builtins` registers
+    (the `positive` flag of the two `IfHelper` statics is regenerated too) -/
+def implKind (ifStatics : List (String × Bool)) (impl : String) : Option HelperKind :=
+  match ifStatics.find? (·.1 == impl) with
+  | some (_, pos) => some (.ifH pos)
+  | none =>
+    match impl with
+    | "EACH_HELPER" => some .each | "WITH_HELPER" => some .withH
+    | "LOOKUP_HELPER" => some .lookup | "RAW_HELPER" => some .raw | "LOG_HELPER" => some .log
+    | "helper_extras::eq" => some .eq | "helper_extras::ne" => some .ne | "helper_extras::gt" => some .gt
+    | "helper_extras::gte" => some .gte | "helper_extras::lt" => some .lt | "helper_extras::lte" => some .lte
+    | "helper_extras::and" => some .andH | "helper_extras::or" => some .orH
+    | "helper_extras::not" => some .notH | "helper_extras::len" => some .len
+    | _ => none
 
-def defaultBuiltinNames : List String :=
-  ["if", "unless", "each", "with", "lookup", "raw", "log", "eq", "ne", "gt", "gte", "lt", "lte", "and", "or", "not", "len"]
-
-def mkBuiltins (names : List String) : List (Str × HelperKind) :=
-  names.foldl (fun acc n => match builtinKind n with
+def mkBuiltins (ifStatics : List (String × Bool)) (regs : List (String × String)) : List (Str × HelperKind) :=
+  regs.foldl (fun acc (n, impl) => match implKind ifStatics impl with
     | some k => assocInsert acc n.toList k
     | none => acc) []
 
-/-- `Registry::new` -/
-def Registry.new (builtins : List String) (escape : Str → Str) : Registry :=
-  { helpers := mkBuiltins builtins, decorators := [(str "inline", .inline)], escape := escape }
+def mkBuiltinDecorators (regs : List (String × String)) : List (Str × DecoKind) :=
+  regs.foldl (fun acc (n, impl) => if impl == "INLINE_DECORATOR" then assocInsert acc n.toList .inline else acc) []
+
+/-- `Registry::new` of the current source (regenerated registrations and defaults) -/
+def Registry.new : Registry :=
+  { helpers := mkBuiltins Generated.ifStatics Generated.builtinHelpers,
+    decorators := mkBuiltinDecorators Generated.builtinDecorators,
+    escape := if Generated.defaultEscapeFn == "html_escape" then escapeHtml else id,
+    strict := Generated.defaultStrict, dev := Generated.defaultDev,
+    preventIndent := Generated.defaultPreventIndent }
 
 /-! ### mutators -/
 
